@@ -17,7 +17,7 @@ allocation invariant; it holds in the empty state and is preserved by every oper
 namespace PdeVerif.Heap
 
 section
-variable {K : Type} [Add K] [Sub K] [Mul K] [Div K] [Neg K] [NatCast K]
+variable {K : Type} [Add K] [Sub K] [Mul K] [Div K] [Neg K] [NatCast K] [DCast K]
 variable {G : List Grid}
 
 /-! ### histories -/
@@ -64,6 +64,32 @@ theorem inv_run {s : State K} (hi : Inv G s) (ops : List (Op K)) : Inv G (run G 
 theorem reachable_inv (ops : List (Op K)) : Inv G (run G ({} : State K) ops) :=
   inv_run (inv_empty G) ops
 
+/-! ### `data` is a live view of the padded array -/
+
+theorem dataLive_after {s : State K} (h : DataLive s) (op : Op K) : DataLive (after G s op) := by
+  unfold after; split
+  · rename_i s' e; exact dataLive_step G h e
+  · exact h
+
+/-- **clause (a), all histories** -/
+theorem dataLive_run {s : State K} (h : DataLive s) (ops : List (Op K)) :
+    DataLive (run G s ops) := by
+  induction ops generalizing s with
+  | nil => exact h
+  | cons op ops ih => rw [run_cons]; exact ih (dataLive_after h op)
+
+/-- **data_is_live_view**: after every history of operations, for every object, the array that
+`obj.data` returns (`_data_valid`) is carved from the array the object currently looks at
+(`_data_full`) - also after re-linking by a collection, deep copies and unpickling.  Together with
+`validSel` (which cells of that array are selected) this is "`data` is a live view of the padded
+array": a write through `data` is a `writeSel` on `objs[i].view`. -/
+theorem data_is_live_view (ops : List (Op K)) {i : Nat} {o : Obj}
+    (ho : (run G ({} : State K) ops).objs[i]? = some o) :
+    (run G ({} : State K) ops).dviews[i]? = some o.view := by
+  have h : DataLive (run G ({} : State K) ops) := dataLive_run dataLive_empty ops
+  unfold DataLive at h
+  rw [h, List.getElem?_map, ho]; rfl
+
 /-! ### frame -/
 
 /-- **frame**: an operation changes no cell of an existing buffer outside its footprint
@@ -94,48 +120,69 @@ theorem frame_handle {s s' : State K} {op : Op K} (hwf : WF s) (h : step G s op 
   exact Store.readView_congr _ _ _ hsz (e.size_eq _ hb)
     (fun i h1 h2 => e.frame _ i hb (hd i h1 h2))
 
-/-- the handle an operation writes through -/
-def writesThrough : Op K → Option Nat
-  | .writeData h _ => some h
-  | .writeFull h _ => some h
-  | .writeCell h _ _ => some h
-  | .setGhosts h _ => some h
-  | .inplace _ a _ => some a
-  | _ => none
+/-- the handles an operation writes through -/
+def writesThrough : Op K → List Nat
+  | .writeData h _ => [h]
+  | .writeFull h _ => [h]
+  | .writeCell h _ _ => [h]
+  | .setGhosts h _ => [h]
+  | .inplace _ a _ => [a]
+  | .applyOperator h _ _ out _ => h :: out.toList
+  | .applyFn _ out _ => out.toList
+  | _ => []
 
 theorem foot_mem {s : State K} {op : Op K} {b i : Nat} (hf : foot G s op b i) :
-    ∃ h o, writesThrough op = some h ∧ s.objs[h]? = some o ∧ o.view.Mem b i := by
+    ∃ h o, h ∈ writesThrough op ∧ s.objs[h]? = some o ∧ o.view.Mem b i := by
   cases op <;> simp only [foot] at hf
-  case writeData h _ => obtain ⟨o, h1, h2⟩ := hf; exact ⟨h, o, rfl, h1, h2.1⟩
-  case writeFull h _ => obtain ⟨o, h1, h2⟩ := hf; exact ⟨h, o, rfl, h1, h2⟩
-  case writeCell h _ _ => obtain ⟨o, h1, h2, _⟩ := hf; exact ⟨h, o, rfl, h1, h2⟩
-  case setGhosts h _ => obtain ⟨o, h1, h2, _⟩ := hf; exact ⟨h, o, rfl, h1, h2⟩
-  case inplace _ a _ => obtain ⟨o, h1, h2⟩ := hf; exact ⟨a, o, rfl, h1, h2.1⟩
+  case writeData h _ => obtain ⟨o, h1, h2⟩ := hf; exact ⟨h, o, by simp [writesThrough], h1, h2.1⟩
+  case writeFull h _ => obtain ⟨o, h1, h2⟩ := hf; exact ⟨h, o, by simp [writesThrough], h1, h2⟩
+  case writeCell h _ _ =>
+    obtain ⟨o, h1, h2, _⟩ := hf; exact ⟨h, o, by simp [writesThrough], h1, h2⟩
+  case setGhosts h _ =>
+    obtain ⟨o, h1, h2, _⟩ := hf; exact ⟨h, o, by simp [writesThrough], h1, h2⟩
+  case inplace _ a _ => obtain ⟨o, h1, h2⟩ := hf; exact ⟨a, o, by simp [writesThrough], h1, h2.1⟩
+  case applyOperator h _ _ out _ =>
+    rcases hf with ⟨o, h1, h2, _⟩ | ⟨j, oj, rfl, h1, h2⟩
+    · exact ⟨h, o, by simp [writesThrough], h1, h2⟩
+    · exact ⟨j, oj, by simp [writesThrough], h1, h2.1⟩
+  case applyFn _ out _ =>
+    obtain ⟨j, oj, rfl, h1, h2⟩ := hf
+    exact ⟨j, oj, by simp [writesThrough], h1, h2.1⟩
 
-theorem not_moved_of_writes {op : Op K} {h : Nat} (hw : writesThrough op = some h) (i : Nat) :
+/-- operations that write through a handle re-link nothing -/
+theorem not_moved_of_writes {op : Op K} {h : Nat} (hw : h ∈ writesThrough op) (i : Nat) :
     ¬ moved op i := by
   cases op <;> simp [writesThrough] at hw <;> simp [moved]
 
-/-- **frame, handle form**: a write through handle `h` leaves what is read through every
-handle that shares no cell with `h` unchanged - in particular every handle on another buffer. -/
+/-- **frame, handle form**: an operation leaves what is read through a handle `h'` unchanged if
+`h'` shares no cell with any of the handles the operation writes through (`writesThrough`: the
+target of a data / marker / ghost-cell / in-place write, the operand and `out` of
+`apply_operator`, `out` of `apply`; no handle at all for every other operation) and `h'` is not
+re-linked (only `FieldCollection(fields, copy_fields=False)` re-links, and only its `fields`). -/
 theorem frame_disjoint {s s' : State K} {op : Op K} (hwf : WF s) (h : step G s op = .ok s')
-    {hw h' : Nat} {ow o : Obj} (hop : writesThrough op = some hw) (how : s.objs[hw]? = some ow)
-    (ho : s.objs[h']? = some o) (hdis : o.view.overlaps ow.view = false) :
+    {h' : Nat} {o : Obj} (ho : s.objs[h']? = some o) (hm : ¬ moved op h')
+    (hdis : ∀ (hw : Nat) (ow : Obj), hw ∈ writesThrough op → s.objs[hw]? = some ow →
+      o.view.overlaps ow.view = false) :
     s'.denote h' = s.denote h' := by
-  refine frame_handle hwf h ho (not_moved_of_writes hop h') ?_
+  refine frame_handle hwf h ho hm ?_
   intro i h1 h2 hf
   obtain ⟨h0, o0, e0, g0, m0⟩ := foot_mem hf
-  rw [hop] at e0; cases e0
-  rw [how] at g0; cases g0
-  have : o.view.overlaps ow.view = true :=
+  have : o.view.overlaps o0.view = true :=
     (View.overlaps_iff _ _).mpr ⟨o.view.buf, i, ⟨rfl, h1, h2⟩, m0⟩
-  rw [hdis] at this; cases this
+  rw [hdis h0 o0 e0 g0] at this; cases this
 
+/-- a write through handle `hw` leaves every handle on another buffer alone -/
 theorem frame_other_buffer {s s' : State K} {op : Op K} (hwf : WF s) (h : step G s op = .ok s')
-    {hw h' : Nat} {ow o : Obj} (hop : writesThrough op = some hw) (how : s.objs[hw]? = some ow)
+    {hw h' : Nat} {ow o : Obj} (hop : writesThrough op = [hw]) (how : s.objs[hw]? = some ow)
     (ho : s.objs[h']? = some o) (hb : o.view.buf ≠ ow.view.buf) :
-    s'.denote h' = s.denote h' :=
-  frame_disjoint hwf h hop how ho (View.overlaps_false_of_buf_ne hb)
+    s'.denote h' = s.denote h' := by
+  refine frame_disjoint hwf h ho (not_moved_of_writes (h := hw) (by simp [hop]) h') ?_
+  intro hw' ow' hmem how'
+  rw [hop] at hmem
+  simp only [List.mem_singleton] at hmem
+  subst hmem
+  rw [how] at how'; cases how'
+  exact View.overlaps_false_of_buf_ne hb
 
 /-! ### a write is seen through every alias -/
 
@@ -340,6 +387,28 @@ theorem collection_layout_slots {s : State K} (hi : Inv G s) {c : Nat} (hl : Lin
 /-- **component views**: `vector[c]` / `tensor[i, j]` (`c = i*dim + j`, row-major) returns a new
 handle that looks at block `c` of the padded array of the field: `n` cells starting `c * n`
 cells into the field's view; the field itself is untouched. -/
+theorem componentAt_view {s s' : State K} (hi : Inv G s) {h c : Nat} {o : Obj}
+    (ho : s.objs[h]? = some o) (hs : componentAt s o c = .ok s') :
+    ∃ gr : Grid, G[o.grid]? = some gr ∧ c < o.ncomp ∧
+      o.view.len = o.ncomp * gr.mask.length ∧ s'.objs[h]? = some o ∧ s'.store = s.store ∧
+      ∃ oc : Obj, s'.objs[s.objs.length]? = some oc ∧ oc.cls = .scalar ∧
+        oc.view = ⟨o.view.buf, o.view.off + c * gr.mask.length, gr.mask.length⟩ := by
+  unfold componentAt at hs
+  split at hs
+  · rename_i hcond
+    cases hs
+    simp only [Bool.and_eq_true, decide_eq_true_eq, Bool.or_eq_true, beq_iff_eq] at hcond
+    rcases hi.shaped h o ho with hr | ⟨gr, hgr, hlen⟩
+    · rcases hcond.1 with e | e <;> rw [e] at hr <;> cases hr
+    have hn : o.view.len / o.ncomp = gr.mask.length := by
+      rw [hlen, Nat.mul_div_cancel_left _ (by omega : 0 < o.ncomp)]
+    refine ⟨gr, hgr, hcond.2, hlen, ?_, rfl, compObj o c, ?_, rfl, ?_⟩
+    · simp only [State.pushObj]
+      rw [List.getElem?_append_left (lt_length_of_getElem? ho)]; exact ho
+    · simp [State.pushObj]
+    · simp only [compObj, hn]
+  · cases hs
+
 theorem component_view {s s' : State K} (hi : Inv G s) {h c : Nat}
     (hs : step G s (.component h c) = .ok s') :
     ∃ (o : Obj) (gr : Grid), s.objs[h]? = some o ∧ G[o.grid]? = some gr ∧ c < o.ncomp ∧
@@ -350,19 +419,36 @@ theorem component_view {s s' : State K} (hi : Inv G s) {h c : Nat}
   split at hs
   · cases hs
   rename_i o ho
+  obtain ⟨gr, h1, h2⟩ := componentAt_view hi (getObj_ok ho) hs
+  exact ⟨o, gr, getObj_ok ho, h1, h2⟩
+
+/-- **tensor components are row-major**: `tensor[i, j]` on a grid of dimension `dim` is the
+component view on block `i * dim + j` - the same operation as `.component h (i * dim + j)`; the new
+handle looks at the `n` cells that start `(i * dim + j) * n` cells into the tensor's padded array
+(`n` = cells of one padded grid), and the tensor has `dim * dim` such blocks. -/
+theorem tensor_component_view {s s' : State K} (hi : Inv G s) {h i j : Nat}
+    (hs : step G s (.tcomponent h i j) = .ok s') :
+    ∃ (o : Obj) (gr : Grid), s.objs[h]? = some o ∧ o.cls = .tensor ∧ G[o.grid]? = some gr ∧
+      i < gr.dim ∧ j < gr.dim ∧
+      step G s (.component h (i * gr.dim + j)) = .ok s' ∧
+      o.view.len = o.ncomp * gr.mask.length ∧ i * gr.dim + j < o.ncomp ∧
+      ∃ oc : Obj, s'.objs[s.objs.length]? = some oc ∧ oc.cls = .scalar ∧
+        oc.view = ⟨o.view.buf, o.view.off + (i * gr.dim + j) * gr.mask.length, gr.mask.length⟩ := by
+  simp only [step] at hs
+  split at hs
+  · cases hs
+  rename_i o ho
+  split at hs
+  · cases hs
+  rename_i gr hgr
   split at hs
   · rename_i hcond
-    cases hs
-    simp only [Bool.and_eq_true, decide_eq_true_eq, Bool.or_eq_true, beq_iff_eq] at hcond
-    rcases hi.shaped h o (getObj_ok ho) with hr | ⟨gr, hgr, hlen⟩
-    · rcases hcond.1 with e | e <;> rw [e] at hr <;> cases hr
-    have hn : o.view.len / o.ncomp = gr.mask.length := by
-      rw [hlen, Nat.mul_div_cancel_left _ (by omega : 0 < o.ncomp)]
-    refine ⟨o, gr, getObj_ok ho, hgr, hcond.2, hlen, ?_, rfl, compObj o c, ?_, rfl, ?_⟩
-    · simp only [State.pushObj]
-      rw [List.getElem?_append_left (lt_length_of_getElem? (getObj_ok ho))]; exact getObj_ok ho
-    · simp [State.pushObj]
-    · simp only [compObj, hn]
+    simp only [Bool.and_eq_true, decide_eq_true_eq, beq_iff_eq] at hcond
+    obtain ⟨gr', h1, h2, h3, _, _, h6⟩ := componentAt_view hi (getObj_ok ho) hs
+    rw [hgr] at h1; cases h1
+    refine ⟨o, gr, getObj_ok ho, hcond.1.1, hgr, hcond.1.2, hcond.2, ?_, h3, h2, h6⟩
+    simp only [step, ho]
+    exact hs
   · cases hs
 
 /-- a marker written through a component view is read through the field at the component's
@@ -391,6 +477,56 @@ theorem component_write_seen_in_field {s s' s'' : State K} (hi : Inv G s) {h c :
   · intro hw
     exact write_visible_through_alias hwf' ho' hoc (by omega) (by omega) hb.symm (by omega) v hw
 
+/-- an existing handle keeps its view through a whole history in which no operation re-links it -/
+theorem views_stable_run {s : State K} (hwf : WF s) {i : Nat} {o : Obj} (ho : s.objs[i]? = some o)
+    (ops : List (Op K)) (hu : ∀ op ∈ ops, ¬ moved op i) : (run G s ops).objs[i]? = some o := by
+  induction ops generalizing s with
+  | nil => exact ho
+  | cons op ops ih =>
+    rw [run_cons]
+    refine ih (wf_after hwf op) ?_ (fun op' h' => hu op' (List.mem_cons_of_mem _ h'))
+    unfold after
+    split
+    · rename_i s' h; exact views_stable hwf h ho (hu op List.mem_cons_self)
+    · exact ho
+
+/-- **component views, all histories**: a component view `vector[c]` / `tensor[i, j]` keeps
+looking at block `c` of the padded array of its field, and a marker written through one of the
+two is read through the other, after every history in which neither the field nor the
+component view is handed to a `FieldCollection(..., copy_fields=False)` (the hypothesis is
+necessary: see the example `component_detached_by_relinking` below - the constructor gives the
+field a new array and the component view keeps the old one). -/
+theorem component_alias_history {s s' s'' : State K} (hi : Inv G s) {h c : Nat}
+    (hs : step G s (.component h c) = .ok s') (ops : List (Op K))
+    (hu : ∀ op ∈ ops, ¬ moved op h ∧ ¬ moved op s.objs.length) :
+    ∃ (o oc : Obj) (n : Nat), (run G s' ops).objs[h]? = some o ∧
+      (run G s' ops).objs[s.objs.length]? = some oc ∧
+      oc.view = ⟨o.view.buf, o.view.off + c * n, n⟩ ∧ c * n + n ≤ o.view.len ∧
+      ∀ p, p < n → ∀ v : K,
+        (step G (run G s' ops) (.writeCell s.objs.length p v) = .ok s'' →
+          (s''.denote h)[c * n + p]? = some (some v)) ∧
+        (step G (run G s' ops) (.writeCell h (c * n + p) v) = .ok s'' →
+          (s''.denote s.objs.length)[p]? = some (some v)) := by
+  obtain ⟨o, gr, _, _, hc, hlen, ho', _, oc, hoc, _, hv⟩ := component_view hi hs
+  have hwf' := wf_step hi.wf hs
+  have h1 := views_stable_run (G := G) hwf' ho' ops (fun op hop => (hu op hop).1)
+  have h2 := views_stable_run (G := G) hwf' hoc ops (fun op hop => (hu op hop).2)
+  have hwf'' : WF (run G s' ops) := wf_run hwf' ops
+  have hblock : c * gr.mask.length + gr.mask.length ≤ o.view.len := by
+    rw [hlen]
+    have : (c + 1) * gr.mask.length ≤ o.ncomp * gr.mask.length := Nat.mul_le_mul_right _ hc
+    rw [Nat.succ_mul] at this; exact this
+  refine ⟨o, oc, gr.mask.length, h1, h2, hv, hblock, ?_⟩
+  intro p hp v
+  have hl : oc.view.len = gr.mask.length := by rw [hv]
+  have hb : oc.view.buf = o.view.buf := by rw [hv]
+  have hoff : oc.view.off = o.view.off + c * gr.mask.length := by rw [hv]
+  constructor
+  · intro hw
+    exact write_visible_through_alias hwf'' h2 h1 (by omega) (by omega) hb (by omega) v hw
+  · intro hw
+    exact write_visible_through_alias hwf'' h1 h2 (by omega) (by omega) hb.symm (by omega) v hw
+
 /-! ### fresh results -/
 
 /-- **copy_is_fresh** (allocation invariant: fresh ids exceed all live ids): every object created
@@ -405,14 +541,24 @@ theorem copy_is_fresh {s s' : State K} (hwf : WF s) {h : Nat} {dt : Option DType
   · exact f.elim
 
 /-- operations that return copies: everything except component views and
-`FieldCollection(..., copy_fields=False)` -/
+`FieldCollection(fields, copy_fields=False)` with pairwise different `fields` (identical fields
+force a copy, collection.py:92-95) -/
 def copying : Op K → Prop
   | .component _ _ => False
-  | .mkColl _ cp _ => cp = true
+  | .tcomponent _ _ _ => False
+  | .mkColl hs cp _ => cp = true ∨ ¬ hs.Nodup
   | _ => True
 
 theorem copying_spec {op : Op K} (hc : copying op) : ¬ subviewing op ∧ ∀ i, ¬ moved op i := by
-  cases op <;> simp_all [copying, subviewing, moved]
+  cases op
+  case mkColl hs cp dt =>
+    refine ⟨by simp [subviewing], ?_⟩
+    intro i hm
+    simp only [moved] at hm
+    rcases hc with h | h
+    · rw [h] at hm; exact absurd hm.1 (by simp)
+    · exact h hm.2.1
+  all_goals simp_all [copying, subviewing, moved]
 
 /-- results of copying operations do not share memory with anything that existed before -/
 theorem fresh_results {s s' : State K} {op : Op K} (hwf : WF s) (hs : step G s op = .ok s')
@@ -485,18 +631,25 @@ theorem copy_never_aliases {s s' : State K} (hwf : WF s) {h : Nat} {dt : Option 
 
 /-- **slice_append_arith_operator_results_fresh**: the same for collection slices, `append`,
 `FieldCollection(..., copy_fields=True)`, negation and binary arithmetic, freshly constructed
-fields (which is how operator results, `to_scalar`, ... are built), stored frames, fields
-read back from a storage, deep copies and unpickled objects. -/
+fields, the fields created by `apply_operator` (`applyOperator`), by `to_scalar` / `real` /
+`imag` / `conjugate` (`derive`) and by `apply` / `transpose` (`applyFn`), stored frames, fields
+read back from a storage, deep copies and unpickled objects, and for the forced-copy path of the
+constructor (`copy_fields=False` but some of the fields are identical). -/
 theorem slice_append_arith_operator_results_fresh {s s' : State K} {op : Op K} (hwf : WF s)
     (hop : (∃ c idx, op = .slice c idx) ∨ (∃ c hs, op = .append c hs) ∨
       (∃ hs dt, op = .mkColl hs true dt) ∨ (∃ h, op = .neg h) ∨ (∃ o a b, op = .binop o a b) ∨
       (∃ c g dt x i, op = .mkField c g dt x i) ∨ (∃ h d, op = .storeFrame h d) ∨
-      (∃ t f, op = .loadFrame t f) ∨ (∃ h, op = .deepcopy h))
+      (∃ t f, op = .loadFrame t f) ∨ (∃ h, op = .deepcopy h) ∨
+      (∃ hs dt, op = .mkColl hs false dt ∧ ¬ hs.Nodup) ∨
+      (∃ h g c o v, op = .applyOperator h g c o v) ∨ (∃ h c x v, op = .derive h c x v) ∨
+      (∃ h o v, op = .applyFn h o v))
     (hs : step G s op = .ok s') {i j : Nat} (hi : s.objs.length ≤ i) (hi' : i < s'.objs.length)
     (hj : j < s.objs.length) (ops : List (Op K)) : aliases (run G s' ops) i j = false := by
   have hc : copying op := by
     rcases hop with ⟨_, _, rfl⟩ | ⟨_, _, rfl⟩ | ⟨_, _, rfl⟩ | ⟨_, rfl⟩ | ⟨_, _, _, rfl⟩ |
-      ⟨_, _, _, _, _, rfl⟩ | ⟨_, _, rfl⟩ | ⟨_, _, rfl⟩ | ⟨_, rfl⟩ <;> simp [copying]
+      ⟨_, _, _, _, _, rfl⟩ | ⟨_, _, rfl⟩ | ⟨_, _, rfl⟩ | ⟨_, rfl⟩ | ⟨_, _, rfl, hd⟩ |
+      ⟨_, _, _, _, _, rfl⟩ | ⟨_, _, _, _, rfl⟩ | ⟨_, _, _, rfl⟩
+    all_goals first | exact Or.inr hd | simp [copying]
   have hl := (step_spec G hwf hs).1.len_le
   exact disjoint_forever (wf_step hwf hs) (by omega) hi' (by omega)
     (fresh_results hwf hs hc hi hi' hj).1 ops
@@ -551,17 +704,146 @@ theorem inplace_touches_only_valid_cells {s s' : State K} (hwf : WF s) {bop : Bi
     rw [hoa] at g1; cases g1
     exact hd i ⟨rfl, h1, h2⟩ g2
 
+/-- **apply_operator_footprint**: `h.apply_operator(name, bc, out=out)` re-links nothing and the
+only cells of existing memory it may change are ghost cells of the operand `h` (the boundary
+condition) and valid cells of `out`: in particular the valid cells of the operand keep their
+content unless `out` overlaps them. -/
+theorem apply_operator_footprint {s s' : State K} (hwf : WF s) {h : Nat}
+    {ghosts : List (Option K)} {c : Cls} {out : Option Nat} {vals : List K}
+    (hs : step G s (.applyOperator h ghosts c out vals) = .ok s') :
+    (∀ (i : Nat) (x : Obj), s.objs[i]? = some x → s'.objs[i]? = some x) ∧
+    (∀ b i, b < s.store.next →
+      (∀ o : Obj, s.objs[h]? = some o →
+        ¬ (o.view.Mem b i ∧ validSel G o (i - o.view.off) = false)) →
+      (∀ (j : Nat) (oj : Obj), out = some j → s.objs[j]? = some oj → ¬ oj.validCell G b i) →
+      s'.store.read b i = s.store.read b i) := by
+  refine ⟨fun i x hx => views_stable hwf hs hx (by simp [moved]), ?_⟩
+  intro b i hb h1 h2
+  refine frame hwf hs b i hb ?_
+  simp only [foot]
+  rintro (⟨o, g1, g2, g3⟩ | ⟨j, oj, g1, g2, g3⟩)
+  · exact h1 o g1 ⟨g2, g3⟩
+  · exact h2 j oj g1 g2 g3
+
+/-- **values of an in-place operation with a number**: after `a <op>= v` every valid cell of `a` holds
+`op(old value, v)` and every ghost cell holds what it held before. -/
+theorem inplace_scalar_values {s s' : State K} (hwf : WF s) {bop : BinOp} {a : Nat} {v : K}
+    {k : Nat} {oa : Obj} (hoa : s.objs[a]? = some oa)
+    (hs : step G s (.inplace bop a (.num v k)) = .ok s') (p : Nat) (hp : p < oa.view.len) :
+    (s'.denote a)[p]? = some
+      (if validSel G oa p = true then opv bop ((s.denote a)[p]?).join (some v)
+       else ((s.denote a)[p]?).join) := by
+  obtain ⟨hb, hsz⟩ := hwf a oa hoa
+  have hden : (s.denote a)[p]? = some (s.store.read oa.view.buf (oa.view.off + p)) := by
+    unfold State.denote; rw [hoa]
+    exact Store.getElem?_readView _ _ p hp (by simpa using hsz)
+  have hlen : (s.store.readView oa.view).length = oa.view.len :=
+    Store.length_readView _ _ (by simpa using hsz)
+  simp only [step, inplace] at hs
+  unfold getObj at hs
+  rw [hoa] at hs
+  simp only at hs
+  split at hs
+  · cases hs
+  split at hs
+  · cases hs
+  cases hs
+  rw [denote_writeSel hwf _ _ _ hoa p hp, hden]
+  have e1 : oa.view.off + p - oa.view.off = p := by omega
+  simp only [e1, Option.join_some]
+  have hcell : cellOf (s.store.readView oa.view) p = s.store.read oa.view.buf (oa.view.off + p) := by
+    unfold cellOf
+    rw [hlen, Nat.mod_eq_of_lt hp, Store.getElem?_readView _ _ p hp (by simpa using hsz)]
+    rfl
+  by_cases hv : validSel G oa p = true
+  · rw [if_pos ⟨trivial, by omega, by omega, hv⟩, if_pos hv, hcell]
+  · rw [if_neg (fun h => hv h.2.2.2), if_neg hv]
+
+/-- **values of `a <op> v` for a field `a` and a number `v`**: the result (the new object) holds
+`op(a's value, v)` at every valid cell and, at every ghost cell, `a`'s value converted to the dtype
+`t` of the result (`result = a.copy(dtype=t)`, then the ufunc writes `result.data`). -/
+theorem binop_scalar_values {s s' : State K} (hwf : WF s) {bop : BinOp} {a : Nat} {v : K}
+    {k : Nat} {oa : Obj} (hoa : s.objs[a]? = some oa) (hc : oa.cls ≠ .coll)
+    (hs : step G s (.binop bop a (.num v k)) = .ok s') :
+    ∃ t : DType, ∀ p, p < oa.view.len →
+      (s'.denote s.objs.length)[p]? = some
+        (if validSel G oa p = true then opv bop ((s.denote a)[p]?).join (some v)
+         else (((s.denote a)[p]?).join).map (DCast.dcast t)) := by
+  obtain ⟨hb, hsz⟩ := hwf a oa hoa
+  have hsz' : oa.view.off + oa.view.len ≤ s.store.size oa.view.buf := by simpa using hsz
+  have hlen : (s.store.readView oa.view).length = oa.view.len := Store.length_readView _ _ hsz'
+  simp only [step, binop] at hs
+  unfold getObj at hs
+  rw [hoa] at hs
+  simp only at hs
+  split at hs
+  · cases hs
+  split at hs
+  · cases hs
+  refine ⟨(s.store.dtOf oa.view.buf).resultScalar k, ?_⟩
+  intro p hp
+  have hden : (s.denote a)[p]? = some (s.store.read oa.view.buf (oa.view.off + p)) := by
+    unfold State.denote; rw [hoa]
+    exact Store.getElem?_readView _ _ p hp hsz'
+  unfold copyThenWrite at hs
+  split at hs
+  · cases hs
+  rename_i s1 hc1
+  obtain ⟨e1, _, hf⟩ := eff_copyAny hwf hc1
+  have hs1 := hf hc
+  subst hs1
+  split at hs
+  · cases hs
+  rename_i r hr
+  cases hs
+  have hlast : lastId (copyField s oa (some ((s.store.dtOf oa.view.buf).resultScalar k))) =
+      s.objs.length := by simp [lastId, copyField, allocObj_length]
+  have hr' := getObj_ok hr
+  rw [hlast] at hr'
+  have hr2 := hr'
+  rw [copyField, allocObj_new] at hr2
+  cases hr2
+  have hp' : p < (castCells (some ((s.store.dtOf oa.view.buf).resultScalar k))
+      (s.store.readView oa.view)).length := by rw [length_castCells, hlen]; exact hp
+  rw [denote_writeSel e1.wf _ _ _ hr' p (by simpa using hp'), hden]
+  simp only [Nat.zero_add, Nat.sub_zero, Option.join_some]
+  -- the operand is read from memory that the copy did not touch
+  have hold : (copyField s oa (some ((s.store.dtOf oa.view.buf).resultScalar k))).store.readView
+      oa.view = s.store.readView oa.view := by
+    refine Store.readView_congr _ _ _ hsz' ?_ ?_
+    · simp only [copyField, State.allocObj]; exact Store.size_alloc_lt _ _ _ hb
+    · intro i _ _; simp only [copyField, State.allocObj]; exact Store.read_alloc_lt _ _ _ i hb
+  have hcell : cellOf (s.store.readView oa.view) p = s.store.read oa.view.buf (oa.view.off + p) := by
+    unfold cellOf
+    rw [hlen, Nat.mod_eq_of_lt hp, Store.getElem?_readView _ _ p hp hsz']
+    rfl
+  have hnew : (copyField s oa (some ((s.store.dtOf oa.view.buf).resultScalar k))).store.read
+      s.store.next p =
+      (s.store.read oa.view.buf (oa.view.off + p)).map
+        (DCast.dcast ((s.store.dtOf oa.view.buf).resultScalar k)) := by
+    simp only [copyField, State.allocObj, Store.read_alloc_new, castCells, List.getElem?_map,
+      Store.getElem?_readView _ _ p hp hsz']
+    rfl
+  have hvs : ∀ (ms : List Nat) (vw : View),
+      validSel G { cls := oa.cls, grid := oa.grid, ncomp := oa.ncomp, view := vw, members := ms } p =
+        validSel G oa p := fun _ _ => rfl
+  by_cases hv : validSel G oa p = true
+  · rw [if_pos ⟨trivial, by omega, by simpa using hp', by rw [hvs]; exact hv⟩, if_pos hv, hold, hcell]
+  · rw [if_neg (fun h => hv (by rw [← hvs]; exact h.2.2.2)), if_neg hv, hnew]
+
 /-! ### values of copies -/
 
-/-- right after `f.copy()` of a field the copy reads the same values as the original -/
+/-- right after `f.copy(dtype=dt)` of a field the copy reads the values of the original, every
+cell (ghost cells included) converted to `dt`; without `dtype` exactly the values of the original -/
 theorem copy_reads_equal {s s' : State K} (hwf : WF s) {h : Nat} {o : Obj} {dt : Option DType}
     (ho : s.objs[h]? = some o) (hc : o.cls ≠ .coll)
-    (hs : step G s (.copy h dt) = .ok s') : s'.denote s.objs.length = s.denote h := by
+    (hs : step G s (.copy h dt) = .ok s') :
+    s'.denote s.objs.length = castCells dt (s.denote h) := by
   simp only [step] at hs
   unfold getObj at hs
   rw [ho] at hs
   obtain ⟨_, _, hf⟩ := eff_copyAny hwf hs
-  obtain ⟨d, rfl⟩ := hf hc
+  obtain rfl := hf hc
   unfold State.denote
   rw [copyField, allocObj_new, ho]
   simp only [State.allocObj, Store.readView, Store.alloc, Store.next]
@@ -605,6 +887,9 @@ theorem binary_op_pure_history (ops : List (Op K)) {s' : State K} {bop : BinOp} 
 end
 
 /-! ### non-vacuity: concrete histories (values in `Int`) -/
+
+/-- the examples use integers; no conversion loses anything -/
+instance : DCast Int := ⟨fun _ x => x⟩
 
 /-- a 1-d grid with two cells (padded: ghost, cell, cell, ghost) -/
 def exGrid : List Grid := [⟨[false, true, true, false], 1⟩]
@@ -653,5 +938,53 @@ example : aliases (run exGrid {} (exOps ++ [.deepcopy 2])) 8 10 = true ∧
 example : aliases (run exGrid {} (exOps.take 3 ++ [.mkColl [0] false none])) 0 2 = false ∧
     aliases (run exGrid {} (exOps.take 3 ++ [.mkColl [0] false none])) 0 3 = true := by
   decide +kernel
+
+/-- a vector field on a 1-d grid, its component view (handle 1), writes through both -/
+def exComp : List (Op Int) :=
+  [ .mkField .vector 0 none false (.valid [0, 1, 2, 0]),
+    .component 0 0,
+    .writeCell 1 1 5,
+    .inplace .add 0 (.num 10 0) ]
+
+/-- the hypotheses of `component_alias_history` are satisfiable (no operation of the history
+re-links the field or the view), and the conclusion is what the model computes -/
+example : ∀ op ∈ exComp.drop 2, ¬ moved op 0 ∧ ¬ moved op 1 := by
+  simp [exComp, moved]
+example : aliases (run exGrid {} exComp) 0 1 = true ∧
+    (run exGrid {} exComp).denote 1 = [none, some 15, some 12, none] := by decide +kernel
+/-- `component_detached_by_relinking`: the hypothesis of `component_alias_history` is necessary.
+`c = v[0]; FieldCollection([v])` gives `v` a new array (the collection's), `c` keeps the old one:
+afterwards the two share no memory and a write through `c` is not read through `v`.  This is what
+pde/fields/collection.py:123-126 does (known finding of C15, reported by the monitor). -/
+example : aliases (run exGrid {} (exComp.take 2)) 0 1 = true ∧
+    aliases (run exGrid {} (exComp.take 2 ++ [.mkColl [0] false none])) 0 1 = false ∧
+    (run exGrid {} (exComp.take 2 ++ [.mkColl [0] false none, .writeCell 1 1 5])).denote 0 =
+      [none, some 1, some 2, none] := by decide +kernel
+
+/-- `DataLive` is a real constraint: the state the code produced before /repo 129e75d
+(`__setstate__` restored `__dict__` only, so `_data_valid` of a deep copy was an array of its own)
+is a state of the model - and it is not `DataLive` -/
+example : ¬ DataLive ({ store := ⟨[⟨[some 1, some 2], .f64⟩, ⟨[some 1, some 2], .f64⟩]⟩
+                        objs := [{ cls := .scalar, grid := 0, ncomp := 1, view := ⟨0, 0, 2⟩ }]
+                        dviews := [⟨1, 0, 2⟩] } : State Int) := by
+  unfold DataLive; decide
+example : DataLive (run exGrid {} (exOps ++ [.deepcopy 2])) ∧
+    (run exGrid {} (exOps ++ [.deepcopy 2])).dviews.length = 11 := by
+  unfold DataLive; decide +kernel
+/-- `tensor[1, 0]` on a 2-d grid (one cell, padded 3 x 3 = 9 cells per component) is component 2:
+handle 1 looks at cells 18..26 of the tensor's array; an operator result (handle 2, written to
+valid cells only) and `to_scalar` (handle 3) are fresh -/
+def exGrid2 : List Grid := [⟨[false, false, false, false, true, false, false, false, false], 2⟩]
+def exTensor : List (Op Int) :=
+  [ .mkField .tensor 0 none false .zeros,
+    .tcomponent 0 1 0,
+    .applyOperator 0 [some 7] .vector none (List.replicate 18 3),
+    .derive 0 .scalar false (List.replicate 9 4) ]
+example : ((run exGrid2 {} exTensor).objs.map (·.view)) =
+    [⟨0, 0, 36⟩, ⟨0, 18, 9⟩, ⟨1, 0, 18⟩, ⟨2, 0, 9⟩] ∧
+    (run exGrid2 {} exTensor).denote 2 =
+      [none, none, none, none, some 3, none, none, none, none,
+       none, none, none, none, some 3, none, none, none, none] ∧
+    ((run exGrid2 {} exTensor).denote 0).take 2 = [some 7, some 0] := by decide +kernel
 
 end PdeVerif.Heap
